@@ -4,7 +4,7 @@
    failure, a refused thread start. *)
 From Coq Require Import Lia.
 From Coq Require Import Permutation.
-From Torf Require Import Base Pipeline PipelineProofs FlowProofs ThreadProofs DeadlockProofs ConservationProofs ReaderDoneProofs DrainProofs TerminationProofs VerifyTrueProofs VerifyFalseProofs CompleteProofs ExceptionProofs CallbackRaiseProofs StopProofs PipeExplore PipeExploreProofs PipeConfigs.
+From Torf Require Import Base Pipeline PipelineProofs FlowProofs ThreadProofs DeadlockProofs ConservationProofs ReaderDoneProofs DrainProofs TerminationProofs VerifyTrueProofs VerifyFalseProofs CompleteProofs ExceptionProofs CallbackRaiseProofs ReaderErrorProofs StopProofs PipeExplore PipeExploreProofs PipeConfigs.
 Open Scope Z_scope.
 
 (* the callback cancels from the second piece on (3 pieces): under every schedule the call returns
@@ -146,6 +146,15 @@ Proof.
   exists 2, 1, None. split; [vm_compute; right; left; reflexivity|lia].
 Qed.
 
+(* UNBOUNDED, "a read failure surfaces as the library's read error": if the reader thread ended with an error (the
+   content iterator raised, or the out-of-memory handler gave up: [s_rexc]) and the call has returned -- other than by
+   the RuntimeError of a refused reader / janitor / first hasher (known finding) -- it raised exactly that error,
+   whatever the callback did meanwhile; under every schedule. *)
+Theorem C04_reader_error_reaches_caller : forall c s r e,
+  (1 <= cf_hashers c)%nat -> reach c s -> s_result s = Some r -> r <> ResRuntimeError 1 -> s_rexc s = Some e -> r = ResRaise e.
+Proof. exact reader_error_reaches_caller. Qed.
+Print Assumptions C04_reader_error_reaches_caller.
+
 (* hashing readable content without a callback raises nothing but an error of the reader (iterator failure, ENOMEM) *)
 Theorem C04_generate_raises_only_reader_errors : forall c s e hs,
   reach c s -> cf_verify c = None -> cf_plan c = CbAbsent -> yielded (cf_items c) = map RPiece hs ->
@@ -156,8 +165,8 @@ Print Assumptions C04_generate_raises_only_reader_errors.
 (* non-vacuity: the iterator fails with error 5 after two pieces: the call raises 5, and 5 is an iterator failure of the content *)
 Example C04_exception_example :
   let s := auto_run 300 G_readfail (init G_readfail) in
-  reach G_readfail s /\ s_result s = Some (ResRaise 5) /\ In (RFail 5) (cf_items G_readfail).
-Proof. split; [apply auto_run_reach; constructor|vm_compute; split; [reflexivity|auto]]. Qed.
+  reach G_readfail s /\ s_result s = Some (ResRaise 5) /\ In (RFail 5) (cf_items G_readfail) /\ s_rexc s = Some 5.
+Proof. split; [apply auto_run_reach; constructor|vm_compute; split; [reflexivity|split; [auto|reflexivity]]]. Qed.
 
 (* non-vacuity: 40 pieces, one hasher, a callback that cancels at its first call: False, and the stop flag is set *)
 Example C04_false_when_stopped_example :
